@@ -836,7 +836,11 @@ class Tenant:
                 with _quiet():
                     prob.check_partials(out_stream=None, method="fd", includes=op.get("includes"), compact_print=True)
             except Exception as e:  # the same op raises the same way in isolation: recorded, compared
-                obs_out.append(("check_partials_raised", {"exc": np.array([hash(type(e).__name__) % 997], dtype=float)}))
+                import zlib
+
+                # (a stable code for the exception class: the built-in hash() of a str changes with PYTHONHASHSEED -
+                # using it made the harness itself irreproducible between interpreters, found by soak)
+                obs_out.append(("check_partials_raised", {"exc": np.array([zlib.crc32(type(e).__name__.encode()) % 997], dtype=float)}))
                 return
             obs_out.append(("after_check_partials", obs.read_outputs(prob)))
         elif k == "abort":
